@@ -388,6 +388,13 @@ TPM_RESULT TPM_Key_LoadPubData(TPM_KEY *tpm_key,	/* result */
     TPM_RESULT		rc = 0;
    
     printf(" TPM_Key_LoadPubData:\n");
+    /* there must be a first byte to peek at */
+    if (rc == 0) {
+	if (*stream_size < 1) {
+	    printf("TPM_Key_LoadPubData: Error, stream_size %u less than 1\n", *stream_size);
+	    rc = TPM_BAD_PARAM_SIZE;
+	}
+    }
     /* peek at the first byte */
     if (rc == 0) {
 	/* TPM_KEY[0] is major (non zero) */
